@@ -12,7 +12,9 @@
      R4  at most 16 entries in all (CRD limit), and the entries of other controllers are still there;
      R5  every entry of this controller corresponds to a target: a Route entry to a Route target of that kind and
          name, a Gateway entry to a Gateway target of that name or - the ancestor of Service-targeted policies being the
-         Gateway - to some Service target. *)
+         Gateway - to some Service target;
+     R6  when a Route's status blames an invalid BackendTLSPolicy (not one whose ancestor list is full), some BackendTLSPolicy
+         carries an entry of this controller that says it is not accepted. *)
 From Coq Require Import List String ZArith Bool Arith.
 From NGF Require Export lib.CaseLib lib.Str k8s.State k8s.Spec C07.Check.
 Import ListNotations.
@@ -30,7 +32,11 @@ Record pol_status := PStatus {
   pl_entries : list anc_entry
 }.
 
-Record case := PCase { pk_cluster : cluster; pk_policies : list pol_status }.
+Record case := PCase {
+  pk_cluster : cluster; pk_policies : list pol_status;
+  pk_btp_blamed : bool   (* some Route's status says that the BackendTLSPolicy of one of its backends is invalid (for a reason
+                            other than a full ancestor list) *)
+}.
 
 Definition ours (e : anc_entry) : bool := seqb (ae_controller e) our_controller.
 Definition ens (p : pol_status) (e : anc_entry) : string := match ae_ns e with Some n => n | None => pl_ns p end.
@@ -84,7 +90,18 @@ Definition r5 (p : pol_status) : bool :=
     else existsb (fun t => seqb (fst t) (ae_kind e) && seqb (snd t) (ae_name e)) (pl_targets p) && seqb (ens p e) (pl_ns p))
     (filter ours (pl_entries p)).
 
+(* R6: a Route is told that the BackendTLSPolicy of its backend is invalid only if such a policy is told so itself: some
+   BackendTLSPolicy carries an entry of this controller that is not Accepted=True *)
+Definition r6 (c : case) : bool :=
+  negb (pk_btp_blamed c) ||
+  existsb (fun p => seqb (pl_kind p) "BackendTLSPolicy" && Nat.leb 16 (pl_foreign_before p)) (pk_policies c) ||
+     (* (a policy whose list other controllers filled cannot be told anything, whatever else is wrong with it) *)
+  existsb (fun p => seqb (pl_kind p) "BackendTLSPolicy" &&
+                    existsb (fun e => ours e && existsb (fun cd => seqb (cd_type cd) "Accepted" && negb (seqb (cd_status cd) "True")) (ae_conds e))
+                            (pl_entries p)) (pk_policies c).
+
 Definition complaints (c : case) : list (nat * string) :=
+  (if r6 c then [] else [(code_violation, "a Route is told that the BackendTLSPolicy of its backend is invalid, no BackendTLSPolicy is")]) ++
   flat_map (fun p =>
     (if r1 p then [] else [(code_violation, "two entries for one ancestor: " ++ pl_kind p ++ "/" ++ pl_ns p ++ "/" ++ pl_name p)%string]) ++
     (if r2 p then [] else [(code_violation, "an entry without exactly one Accepted condition or with a stale generation: " ++ pl_kind p ++ "/" ++ pl_ns p ++ "/" ++ pl_name p)%string]) ++
